@@ -131,6 +131,14 @@ def body_functional(c, ctx):
             cells = np.array(list(dict.fromkeys(int(k) % m.nelements for k in c['picks'])), dtype=np.int32)    # any order
             if where == 'cellsub':
                 basis = CellBasis(m, e, intorder=order, elements=cells)
+            elif c['extra'] == 1 and len(cells) >= 2:
+                # the region given as a union of two named, OVERLAPPING pieces (tuple / list / set of names)
+                cells = np.unique(cells)
+                h2 = len(cells) // 2
+                mm = m.with_subdomains({'omega': cells, 'a': cells[:h2 + 1], 'b': cells[h2:][::-1].copy()})
+                spell = [('a', 'b'), ['b', 'a'], {'a', 'b'}][len(c['picks']) % 3]
+                basis = CellBasis(mm, e, intorder=order, elements=spell)
+                ctx.cls('union-of-overlapping-names')
             else:
                 mm = m.with_subdomains({'omega': cells})
                 basis = CellBasis(mm, e, intorder=order, elements='omega')
@@ -230,15 +238,17 @@ def body_functional(c, ctx):
         integrand2 = integrand
     elif meta == 'rigid':
         # exactly representable motion: rotate by 90 degrees in the (0, last) plane and translate by dyadic numbers
+        # the translation scales with the mesh (power of two): |offset| / cell size stays bounded, see DESIGN 12(a)
+        sc = 2.0 ** np.floor(np.log2(max(np.ptp(m.p, axis=1).max(), 1e-300)))
         if d == 1:
-            m2 = cls(m.p + 0.75, m.t, **kw)
+            m2 = cls(m.p + 0.75 * sc, m.t, **kw)
 
             def integrand2(w):
-                return (w.x[0] - 0.75) ** alpha[0] + 0 * w.x[0]
+                return (w.x[0] - 0.75 * sc) ** alpha[0] + 0 * w.x[0]
         else:
             R = np.eye(d)
             R[0, 0], R[0, d - 1], R[d - 1, 0], R[d - 1, d - 1] = 0.0, -1.0, 1.0, 0.0
-            b = np.array([0.5, -1.25, 2.0][:d])
+            b = np.array([0.5, -1.25, 2.0][:d]) * sc
             m2 = cls(R @ m.p + b[:, None], m.t, **kw)
 
             def integrand2(w):
@@ -285,6 +295,92 @@ def case_matrices(draw, tier):
     beta = draw(st.lists(st.integers(0, 2), min_size=d, max_size=d).filter(lambda a: sum(a) <= 2))
     return dict(mesh=desc, elem=name, deg=k, beta=beta, picks=draw(st.lists(st.integers(0, 10**4), min_size=1, max_size=6)),
                 subset=draw(st.booleans()))
+
+
+# ------------------------------------------------------------------------------ facet forms of polynomial data
+FACET_LAGRANGE = {
+    'line': [('ElementLineP1', 1), ('ElementLineP2', 2)],
+    'tri': [('ElementTriP1', 1), ('ElementTriP2', 2), ('ElementTriP3', 3)],
+    'tet': [('ElementTetP1', 1), ('ElementTetP2', 2)],
+    'quad': [('ElementQuad1', 1), ('ElementQuad2', 2)],       # isoparametric: contain all polynomials of total degree <= k
+    'hex': [('ElementHex1', 1), ('ElementHex2', 2)],
+}
+
+
+@st.composite
+def case_facet_forms(draw, tier):
+    desc = draw(gm.mesh(kinds=('line', 'tri', 'tri', 'quad', 'quad', 'quad', 'tet', 'hex'), max_cells=8, max_cells_3d=3, order2=False))
+    kind = gm.mesh_kind(desc)
+    d = gm.DIM[kind]
+    name, k = draw(st.sampled_from(FACET_LAGRANGE[kind]))
+
+    def poly():
+        terms = draw(st.lists(st.tuples(st.lists(st.integers(0, k), min_size=d, max_size=d).filter(lambda a: sum(a) <= k),
+                                        st.sampled_from([1, -1, 2, -3, 1])), min_size=1, max_size=3))
+        return [[list(a), cf] for a, cf in terms]
+    return dict(mesh=desc, elem=name, deg=k, p=poly(), q=poly(), where=draw(st.sampled_from(['bnd', 'facetsub', 'interior', 'interior'])),
+                picks=draw(st.lists(st.integers(0, 10**4), min_size=1, max_size=8)), side=draw(st.integers(0, 1)),
+                extra=draw(st.integers(0, 1)))
+
+
+def body_facet_forms(c, ctx):
+    """v^T M u and b^T v for facet forms, u and v nodal interpolants of polynomials p, q that the space contains:
+    = exact integrals of p q (and of x^beta-type data) over the selected straight facets.  Unlike functionals of w.x, this
+    involves the basis functions at the facet quadrature points, i.e. the pull-back of facet points into the cells."""
+    import skfem
+    from skfem import BilinearForm, CellBasis, FacetBasis, LinearForm
+    from ..cases import build_mesh
+    desc = c['mesh']
+    kind = gm.mesh_kind(desc)
+    m = build_mesh(desc)
+    d = m.dim()
+    k = c['deg']
+    where = c['where']
+    if kind == 'hex' and not planar_faces(m):
+        raise Unsupported('non-planar quadrilateral faces: the surface factor is not polynomial')
+    E = getattr(skfem, c['elem'])
+    P = polyq.Poly()
+    Q = polyq.Poly()
+    for a, cf in c['p']:
+        P = P + polyq.Poly.monomial(tuple(a)) * Fr(cf)
+    for a, cf in c['q']:
+        Q = Q + polyq.Poly.monomial(tuple(a)) * Fr(cf)
+    order = needed_order(kind, 2 * k, facet=True) + c['extra']
+    bf = m.boundary_facets()
+    inner = np.setdiff1d(np.arange(m.nfacets), bf)
+    if where == 'bnd':
+        facets = bf
+        fb = FacetBasis(m, E(), intorder=order)
+    elif where == 'facetsub':
+        facets = np.array(list(dict.fromkeys(int(bf[int(q) % len(bf)]) for q in c['picks'])), dtype=np.int32)
+        fb = FacetBasis(m, E(), intorder=order, facets=facets)
+    else:
+        if len(inner) == 0:
+            raise Reject()
+        facets = np.array(list(dict.fromkeys(int(inner[int(q) % len(inner)]) for q in c['picks'])), dtype=np.int32)
+        fb = skfem.InteriorFacetBasis(m, E(), intorder=order, facets=facets, side=c['side'])
+    nonaffine = kind in ('quad', 'hex') and ('split' in desc['feat'] or 'jiggled' in desc['feat'])
+    ctx.cls(desc['cls'], c['elem'], where, 'nonaffine' if nonaffine else 'affine')
+    ctx.nt(nonaffine or k >= 2 or where == 'interior')
+    sig = dict(elem=c['elem'], mesh=desc['cls'], where=where)
+    X = CellBasis(m, E(), intorder=1).doflocs
+    u = np.asarray(P.evalf(X), dtype=float) + 0 * X[0]
+    v = np.asarray(Q.evalf(X), dtype=float) + 0 * X[0]
+    M = BilinearForm(lambda u_, v_, w: u_ * v_).assemble(fb)
+    b = LinearForm(lambda v_, w: P.evalf(w.x) * v_ + 0 * w.x[0]).assemble(fb)
+    PQ, absPQ = P * Q, polyq.Poly()
+    for a, cf in PQ.items():
+        absPQ = absPQ + polyq.Poly.monomial(a) * abs(cf)
+    want = 0.0
+    scale = 1e-300
+    sup = [float(np.abs(m.p[q_]).max()) for q_ in range(d)]
+    for fc in facets:
+        Pf = [[Fr(float(x)) for x in row] for row in m.p[:, m.facets[:, fc]]]
+        want += polyq.int_poly_facet(PQ, Pf)
+        meas = polyq.int_poly_facet(polyq.Poly.const(1, d), Pf)
+        scale += meas * sum(abs(float(cf)) * np.prod([sup[q_] ** a[q_] for q_ in range(d)]) for a, cf in PQ.items())
+    ctx.close('facet_mass_polynomials', float(v @ (M @ u)), want, 1e-10, scale, **sig)
+    ctx.close('facet_load_polynomials', float(b @ v), want, 1e-10, scale, **sig)
 
 
 def monos(kind, k):
@@ -490,6 +586,7 @@ PROP = Prop(
     subs=[Sub('functional', body_functional, strategy=case_functional, quick=2400, thorough=30000),
           Sub('named_refined', body_functional, strategy=case_named, quick=500, thorough=6000),
           Sub('matrices', body_matrices, strategy=case_matrices, quick=800, thorough=10000),
+          Sub('facet_forms', body_facet_forms, strategy=case_facet_forms, quick=600, thorough=8000),
           Sub('pou', body_pou, strategy=case_pou, quick=800, thorough=10000)],
     design_ref='DESIGN.md section 6, C02')
 PROP.rule += ('. Added in round 2 (sub-check named_refined): integrals over NAMED cell / boundary-facet / interior-facet sets before and after refined(k), k in {1, 2} -- the name must keep meaning the same point set; non-trivial there as for functionals.')
